@@ -16,10 +16,11 @@
  *               by one second per call, so two samples across a day boundary would disagree
  * and every combination in which at most K dimensions deviate from their default is executed
  * (K = 4: all quadruples; thorough: larger alphabets; --deep, given by ./check to the thorough tier
- * only: one more deviating dimension than --k says, i.e. K = 5, all quintuples over the thorough
- * alphabets -- for the two six-dimensional variants that is everything but the combinations in
- * which all six dimensions deviate.  The alphabets and so the meaning of a replay's indices do not
- * change; the work is cut into smaller units: variant x the first three dimensions).
+ * only: the thorough alphabets extended once more -- 15 string lengths (adds 4, 16, 32, 127, 128), 20 secret
+ * lengths (adds 16, 32, 100 and 187..189: "AWS4"+secret crosses the third HMAC block), 24 bodies (adds 2, 54,
+ * 57, 118, 121, 8192, 32768 bytes), 10 expiries (adds 2, 59, 60, 86399), 24 clock values (adds 59, 60, 3599,
+ * 3600, 1999-12-31 23:59:59 and the second after, 2^32-1, 2^32); K stays 4.  A replay record of a deep run
+ * carries "deep":1 because its indices refer to these alphabets).
  *
  * Oracle, per case: the request printed in aws_sign.h is assembled from the inputs and the
  * *returned* strings and handed to the verifier together with the secret.  The verifier parses
@@ -72,7 +73,7 @@ static const int VDIMS[V_N][9] = {
 	{ D_KEYID, D_SECRET, D_REGION, D_OP, D_BODY, D_TIME, -1, -1, -1 },
 };
 static int K;	/* maximal number of dimensions deviating together */
-static int deep;	/* --deep: K + 1 deviating dimensions, units over three dimensions */
+static int deep;	/* --deep: the _D alphabets below */
 static int empty_path;	/* --empty-path: the length-0 path value is "" instead of "/" (see header) */
 
 static const int LEN_Q[] = { 0, 1, 2, 3, 8, 64, 200 };
@@ -88,18 +89,28 @@ static const int EXP_T[] = { 0, 1, 3600, 604800, 604801, INT_MAX };
 static const int64_t TIME_Q[] = { 0, 86399, 86400, 951782399, 951782400, 2147483647LL, 2147483648LL, 1369353600, 4102444799LL, 253402300799LL, TFAIL };
 static const int64_t TIME_T[] = { 0, 86399, 86400, 951782399, 951782400, 2147483647LL, 2147483648LL, 1369353600, 4102444799LL, 253402300799LL, TFAIL,
 	68255999 /* 1972-02-29 23:59:59 */, 1709251199 /* 2024-02-29 23:59:59 */, 4107542399LL /* 2100-02-28 23:59:59 */, 1798761599 /* 2026-12-31 23:59:59 */, 1 };
+/* --deep: the thorough values first (same indices), then the additions */
+static const int LEN_D[] = { 0, 1, 2, 3, 8, 63, 64, 65, 199, 200, 4, 16, 32, 127, 128 };
+static const int SLEN_D[] = { 0, 1, 2, 3, 8, 40, 59, 60, 61, 64, 123, 124, 125, 200, 16, 32, 100, 187, 188, 189 };
+static const long BODY_D[] = { -1, -2, 0, 1, 55, 56, 63, 64, 65, 119, 120, 127, 128, 1000, 4096, 65536, 102400, 2, 54, 57, 118, 121, 8192, 32768 };
+static const int EXP_D[] = { 0, 1, 3600, 604800, 604801, INT_MAX, 2, 59, 60, 86399 };
+static const int64_t TIME_D[] = { 0, 86399, 86400, 951782399, 951782400, 2147483647LL, 2147483648LL, 1369353600, 4102444799LL, 253402300799LL, TFAIL,
+	68255999, 1709251199, 4107542399LL, 1798761599, 1,
+	59, 60, 3599, 3600, 946684799 /* 1999-12-31 23:59:59 */, 946684800, 4294967295LL, 4294967296LL };
 #define DEFAULT_TIME 1790000000LL
 #define NEL(a) ((int)(sizeof(a) / sizeof((a)[0])))
+#define ALPHA(n) (deep ? n##_D : vf_tier ? n##_T : n##_Q)
+#define NALPHA(n) (deep ? NEL(n##_D) : vf_tier ? NEL(n##_T) : NEL(n##_Q))
 
 static int
 nvals(int dim)	/* number of values including the default (index 0) */
 {
 	switch (dim) {
-	case D_SECRET: return 1 + (vf_tier ? NEL(SLEN_T) : NEL(SLEN_Q));
-	case D_BODY: return 1 + (vf_tier ? NEL(BODY_T) : NEL(BODY_Q));
-	case D_EXPIRY: return 1 + (vf_tier ? NEL(EXP_T) : NEL(EXP_Q));
-	case D_TIME: return 1 + (vf_tier ? NEL(TIME_T) : NEL(TIME_Q));
-	default: return 1 + (vf_tier ? NEL(LEN_T) : NEL(LEN_Q));
+	case D_SECRET: return 1 + NALPHA(SLEN);
+	case D_BODY: return 1 + NALPHA(BODY);
+	case D_EXPIRY: return 1 + NALPHA(EXP);
+	case D_TIME: return 1 + NALPHA(TIME);
+	default: return 1 + NALPHA(LEN);
 	}
 }
 
@@ -113,11 +124,11 @@ strval(int dim, int idx, char out[256])
 	int L, i, off;
 	if (idx == 0) { strcpy(out, DEFSTR[dim]); return; }
 	if (dim == D_SECRET) {
-		L = (vf_tier ? SLEN_T : SLEN_Q)[idx - 1]; off = 3 * L + 1;
+		L = ALPHA(SLEN)[idx - 1]; off = 3 * L + 1;
 		for (i = 0; i < L; i++) out[i] = (char)(0x20 + (off + i * 7) % 95);	/* all of printable ASCII */
 		out[L] = 0; return;
 	}
-	L = (vf_tier ? LEN_T : LEN_Q)[idx - 1]; off = dim * 11 + L;
+	L = ALPHA(LEN)[idx - 1]; off = dim * 11 + L;
 	if (dim == D_PATH) {
 		if (empty_path && L == 0) { out[0] = 0; return; }
 		out[0] = '/';
@@ -147,19 +158,19 @@ mkcase(struct kase * c, int variant, const int idx[D_N])
 	strval(D_KEYID, idx[D_KEYID], c->keyid); strval(D_SECRET, idx[D_SECRET], c->secret); strval(D_REGION, idx[D_REGION], c->region);
 	strval(D_METHOD, idx[D_METHOD], c->method); strval(D_BUCKET, idx[D_BUCKET], c->bucket); strval(D_PATH, idx[D_PATH], c->path);
 	strval(D_SVC, idx[D_SVC], c->svc); strval(D_OP, idx[D_OP], c->op);
-	b = idx[D_BODY] == 0 ? 11 : (vf_tier ? BODY_T : BODY_Q)[idx[D_BODY] - 1];
+	b = idx[D_BODY] == 0 ? 11 : ALPHA(BODY)[idx[D_BODY] - 1];
 	if (b == -1) { c->body = NULL; c->bodylen = 0; c->reallen = 0; }
 	else if (b == -2) { c->body = NULL; c->bodylen = 7; c->reallen = 0; }
 	else { c->body = BODYBUF + (idx[D_BODY] % 5); c->bodylen = c->reallen = (size_t)b; }
-	c->expiry = idx[D_EXPIRY] == 0 ? 86400 : (vf_tier ? EXP_T : EXP_Q)[idx[D_EXPIRY] - 1];
-	c->t = idx[D_TIME] == 0 ? DEFAULT_TIME : (vf_tier ? TIME_T : TIME_Q)[idx[D_TIME] - 1];
+	c->expiry = idx[D_EXPIRY] == 0 ? 86400 : ALPHA(EXP)[idx[D_EXPIRY] - 1];
+	c->t = idx[D_TIME] == 0 ? DEFAULT_TIME : ALPHA(TIME)[idx[D_TIME] - 1];
 }
 
 static void
 replay_json(const struct kase * c, char * out, size_t n)
 {
 	size_t o; int d;
-	o = (size_t)snprintf(out, n, "{\"variant\":%d,\"tier\":%d,\"empty_path\":%d,\"idx\":[", c->variant, vf_tier, empty_path);
+	o = (size_t)snprintf(out, n, "{\"variant\":%d,\"tier\":%d,%s\"empty_path\":%d,\"idx\":[", c->variant, vf_tier, deep ? "\"deep\":1," : "", empty_path);
 	for (d = 0; d < D_N; d++) o += (size_t)snprintf(out + o, n - o, "%s%d", d ? "," : "", c->idx[d]);
 	snprintf(out + o, n - o, "]}");
 }
@@ -267,22 +278,8 @@ rec(int pos, int left, int idx[D_N])
 	idx[dim] = 0; rec(pos + 1, left, idx);
 	if (left > 0) { n = nvals(dim); for (i = 1; i < n; i++) { idx[dim] = i; rec(pos + 1, left - 1, idx); } idx[dim] = 0; }
 }
-/* unit = variant, value of the first dimension, value of the second dimension (deep: and of the third) */
-static int UN0, UN1, UN2;
-static void
-unit_deep(uint64_t u)
-{
-	int idx[D_N] = { 0 }, v, a, b, c = (int)(u % (uint64_t)UN2), left = K;
-	u /= (uint64_t)UN2; b = (int)(u % (uint64_t)UN1); u /= (uint64_t)UN1; a = (int)(u % (uint64_t)UN0); v = (int)(u / (uint64_t)UN0);
-	if (a >= nvals(VDIMS[v][0]) || b >= nvals(VDIMS[v][1]) || c >= nvals(VDIMS[v][2])) return;
-	if (a) left--;
-	if (b) left--;
-	if (c) left--;
-	if (left < 0) return;
-	cur_variant = v; idx[VDIMS[v][0]] = a; idx[VDIMS[v][1]] = b; idx[VDIMS[v][2]] = c;
-	rec(3, left, idx);
-	if (a == 0 && b == 0 && c == 0) { struct kase k; char d[1200]; mkcase(&k, v, idx); describe(&k, d, sizeof(d)); vf_sample("%s -> verified", d); }
-}
+/* unit = variant, value of the first dimension, value of the second dimension */
+static int UN0, UN1;
 static void
 unit(uint64_t u)
 {
@@ -319,7 +316,8 @@ main(int argc, char ** argv)
 	for (i = 1; i + 1 < argc; i++) if (!strcmp(argv[i], "--k")) K = atoi(argv[i + 1]);
 	for (i = 1; i < argc; i++) if (!strcmp(argv[i], "--empty-path")) empty_path = 1;
 	for (i = 1; i < argc; i++) if (!strcmp(argv[i], "--deep")) deep = 1;
-	if (deep) { vf_tier = 1; K++; }	/* the thorough alphabets, one more deviating dimension */
+	if (vf_replay && strstr(vf_replay, "\"deep\":1")) deep = 1;
+	if (deep) vf_tier = 1;	/* the deep alphabets extend the thorough ones */
 	if (vf_replay && strstr(vf_replay, "\"empty_path\":1")) empty_path = 1;
 	if ((st = sigv4_selftest()) != 0) vf_engine_error("sigv4_ref self-test (AWS documentation examples) failed: %d", st);
 	BODYBUF = malloc(102400 + 8);
@@ -341,9 +339,8 @@ main(int argc, char ** argv)
 		return bad ? 1 : 0;
 	}
 	vf_count("exhaustive", 0);
-	UN0 = nvals(D_KEYID); UN1 = nvals(D_SECRET); UN2 = nvals(D_REGION);	/* the first three dimensions of every variant */
-	if (deep) vf_parallel((uint64_t)V_N * (uint64_t)UN0 * (uint64_t)UN1 * (uint64_t)UN2, unit_deep);
-	else vf_parallel((uint64_t)V_N * (uint64_t)UN0 * (uint64_t)UN1, unit);
+	UN0 = nvals(D_KEYID); UN1 = nvals(D_SECRET);
+	vf_parallel((uint64_t)V_N * (uint64_t)UN0 * (uint64_t)UN1, unit);
 	if (vf_nviolations() == 0 && !vf_deadline_hit()) {
 		if (vf_getcount("time_failure_reported") == 0) vf_engine_error("time() failure path never reached");
 		if (vf_getcount("bodies_100KiB") == 0) vf_engine_error("100 KiB body never signed");
